@@ -84,17 +84,35 @@ func checkC19(w *World, r *Report) {
 		}
 	}
 	// ---- c. every NewPgidExecutor call gets (job.Stdin, job.Stdout, job.Stderr)
-	np := w.FuncByName("taskctl", "NewPgidExecutor")
+	// (the executor constructor is the function of package taskctl that configures interp.StdIO;
+	// wrappers that forward their own parameters are looked through)
+	np := w.FuncByRole("taskctl", "NewPgidExecutor", func(f *ssa.Function) bool { return f.Parent() == nil && callsNamed(f, "interp.StdIO") })
 	if np != nil {
-		n := 0
-		for _, fn := range w.ModFuncs {
-			for _, ci := range findCalls(fn, func(_ string, c *ssa.CallCommon) bool { return c.StaticCallee() == np }) {
-				n++
-				a := ci.Common().Args
-				got := []string{w.AP(a[0]), w.AP(a[1]), w.AP(a[2])}
+		si, so, se := paramIndex(np, "stdin"), paramIndex(np, "stdout"), paramIndex(np, "stderr")
+		if si >= 0 && so >= 0 && se >= 0 {
+			type trio struct{ in, out, err string }
+			sites := map[ssa.CallInstruction]*trio{}
+			var order []ssa.CallInstruction
+			fnOf := map[ssa.CallInstruction]*ssa.Function{}
+			put := func(idx int, set func(t *trio, v string)) {
+				for _, l := range w.argOrigins(np, idx, 0) {
+					if sites[l.in] == nil {
+						sites[l.in] = &trio{}
+						order = append(order, l.in)
+						fnOf[l.in] = l.fn
+					}
+					set(sites[l.in], w.AP(l.v))
+				}
+			}
+			put(si, func(t *trio, v string) { t.in = v })
+			put(so, func(t *trio, v string) { t.out = v })
+			put(se, func(t *trio, v string) { t.err = v })
+			for _, ci := range order {
+				t := sites[ci]
+				got := []string{t.in, t.out, t.err}
 				okE := strings.HasSuffix(got[0], ".Stdin") && strings.HasSuffix(got[1], ".Stdout") && strings.HasSuffix(got[2], ".Stderr") &&
 					strings.TrimSuffix(got[0], ".Stdin") == strings.TrimSuffix(got[1], ".Stdout") && strings.TrimSuffix(got[1], ".Stdout") == strings.TrimSuffix(got[2], ".Stderr")
-				r.Check(okE, "labels.executor-args", FuncName(fn)+": NewPgidExecutor(stdin, stdout, stderr)", w.InstrPos(ci), "receives the compiled job's Stdin, Stdout, Stderr in this order", "the executor is built with ("+strings.Join(got, ", ")+"): streams are swapped or taken from different jobs")
+				r.Check(okE, "labels.executor-args", FuncName(fnOf[ci])+": NewPgidExecutor(stdin, stdout, stderr)", w.InstrPos(ci), "receives the compiled job's Stdin, Stdout, Stderr in this order", "the executor is built with ("+strings.Join(got, ", ")+"): streams are swapped or taken from different jobs")
 			}
 		}
 		// ---- d. inside: params → interp.StdIO positions
@@ -243,7 +261,10 @@ func checkC19(w *World, r *Report) {
 			}
 		}
 	}
-	r.Floor("labels.", 14)
+	r.Floor("labels.run", 2)
+	r.Floor("labels.upstream", 4)
+	r.Floor("labels.executor-args", 1)
+	r.Floor("labels.stdio", 3)
 	r.Floor("key.", 8)
 	r.Floor("membership.", 3)
 }
